@@ -331,7 +331,7 @@ pub fn drops_drain_nth<const C: usize, const R: usize>() {
         let rc: usize = kani::any();
         kani::assume(rc < C);
         let k: usize = kani::any();
-        kani::assume(k <= R);
+        kani::assume(k <= R + 1);     // also beyond the remaining cells
         {
             let mut d = t.remove_col(rc);
             if kani::any() {
